@@ -9,6 +9,7 @@ from ..viol import Violation, require
 ID = 'C15'
 LEVEL = 'exploration'
 RULE = (
+    'Rejected MDD calls (find_or_add with an unknown successor / wrong arity / bad level, apply with unknown node / operator / arity, ite with unknown node) are interleaved and must leave the MDD tables untouched. '
     'R (conversion): Hypothesis 1-3 integer variables of 1-3 bits (<=6 '
     'bits), every integer order and initial bit order drawn, 1-4 referenced '
     'BDD functions of either sign (constants included), extra unreferenced '
@@ -350,6 +351,40 @@ def check_algebra(case):
                 pass
             else:
                 raise Violation('mdd.quantifier_alias_accepted')
+        elif kind == 'bad':
+            # rejected calls: must raise and leave the MDD intact (the
+            # invariants below run with the ledger unchanged)
+            snap = (dict(mdd._succ), dict(mdd._ref), dict(mdd._pred))
+            k = op[1] % 7
+            missing = max(mdd._succ) + 3 + op[2] % 5
+            lvl = op[2] % len(doms)
+            var = [v for v, d in mdd.vars.items() if d['level'] == lvl][0]
+            ln = mdd.vars[var]['len']
+            u, _ = pick[op[2]]
+            try:
+                if k == 0:
+                    succ = [1, -1] * ln
+                    succ = succ[:ln]
+                    succ[ln - 1] = missing
+                    mdd.find_or_add(lvl, *succ)
+                elif k == 1:
+                    mdd.find_or_add(lvl, *([1] * (ln + 1)))
+                elif k == 2:
+                    mdd.find_or_add(len(doms) + 1, 1, -1)
+                elif k == 3:
+                    mdd.apply('and', u, missing)
+                elif k == 4:
+                    mdd.apply('nand', u, u)
+                elif k == 5:
+                    mdd.apply('not', u, u)
+                else:
+                    mdd.ite(missing, u, u)
+            except Exception:
+                pass
+            else:
+                raise Violation('mdd.bad_call_accepted', dict(k=k))
+            require((dict(mdd._succ), dict(mdd._ref), dict(mdd._pred)) ==
+                    snap, 'mdd.rejected_call_changed_manager', dict(k=k))
         elif kind == 'build':
             hold(build_mdd(mdd, op[1] & FD, doms, level_of), op[1] & FD)
         elif kind == 'drop':
@@ -453,6 +488,7 @@ def run_algebra(spec, out):
             st.tuples(st.just('build'), st.integers(0, (1 << D) - 1)),
             st.tuples(st.just('gc')),
             st.tuples(st.just('gc')),
+            st.tuples(st.just('bad'), st.integers(0, 6), st.integers(0, 9)),
             st.tuples(st.just('rebuild'), st.integers(0, 9)),
         ).map(list)
         return dict(
